@@ -10,7 +10,7 @@ import (
 	. "verifharness/evid"
 )
 
-var allOps = OpWeights{KOpen: 1, KAdd: 8, KAddMulti: 2, KAbandon: 1, KCompactAll: 4, KExpire: 1, KAutoCompact: 2, KRead: 1, KClose: 1, KClean: 1}
+var allOps = OpWeights{KOpen: 1, KAdd: 8, KAddMulti: 2, KAbandon: 1, KCompactAll: 4, KExpire: 1, KAutoCompact: 2, KRead: 1, KClose: 1, KClean: 1, KCompactRange: 4}
 
 func genC04(t *rapid.T) Case {
 	c := Case{Cfg: drawConcCfg(t)}
@@ -23,6 +23,11 @@ func genC04(t *rapid.T) Case {
 }
 
 func classify(o *Obs, c Case, r *Result) {
+	if os.Getenv("VERIF_TRACE") != "" {
+		for _, ev := range r.Trace {
+			fmt.Fprintln(os.Stderr, ev.String())
+		}
+	}
 	o.Class("sched-" + c.Sched.Kind)
 	o.Class(fmt.Sprintf("procs-%d", len(c.Progs)))
 	o.ClassIf(r.Overlap, "ops-overlap")
